@@ -458,11 +458,14 @@ def estimate_zscore(
         if scale_method == "norm"
         else estimate_scale(data, scale_method, axis, keepdims=True)
     )
-    zero_scales = np.isclose(scale, 0)
+    zscores = np.subtract(data, loc, dtype=np.float32)
+    # A scale counts as zero when it is negligible relative to the deviations
+    # themselves; an absolute threshold would make the Z-scores unit dependent.
+    tiny = np.finfo(np.float32).eps * np.max(np.abs(zscores), axis=axis, keepdims=True)
+    zero_scales = scale <= tiny
     if np.any(zero_scales):
         scale = np.where(zero_scales, 1, scale)
 
-    zscores = np.subtract(data, loc, dtype=np.float32)
     np.divide(zscores, scale, out=zscores)
     return ZScoreResult(data=zscores, loc=np.asarray(loc), scale=np.asarray(scale))
 
